@@ -111,6 +111,7 @@ fn server_reg_start_case(cred_id: &[u8]) {
 harnesses! {
     fn s2_client_reg_start_pw0 [unwind = 36] { client_reg_start_case(&[]); }
     fn s2_client_reg_start_pw2 [unwind = 36] { let pw = any_bytes::<2>(); client_reg_start_case(&pw); }
+    fn s2_client_reg_start_pw17 [unwind = 36] { let pw = any_bytes::<17>(); client_reg_start_case(&pw); }
     fn s3_client_login_start_pw0 [unwind = 36] { client_login_start_case(&[]); }
     fn s3_client_login_start_pw2 [unwind = 36] { let pw = any_bytes::<2>(); client_login_start_case(&pw); }
 
